@@ -21,8 +21,10 @@ CFG_T = dict(ops2=("mul", "add"), iops=("iadd", "imul"), set_idx=("i0",), clears
 CFG_Q1 = dict(ops2=("mul",), iops=("iadd",), set_idx=(), clears=("backward",), max_live=5, peek=True, no_y=True)  # one leaf, deeper
 # the memory guard as the last line of defence: ops through a transient view, direct writes by the caller, re-use
 CFG_Q3 = dict(ops2=("mul",), iops=(), set_idx=(), clears=("backward",), max_live=5, viaview=True, rawwrite=True, no_y=True)
-CFGS = {"q1": CFG_Q1, "q2": CFG_Q, "q3": CFG_Q3, "t": CFG_T}
-BOUNDS = {"quick": [("q1", 5), ("q2", 4), ("q3", 5)], "thorough": [("q1", 6), ("q3", 6), ("t", 5)]}
+# statements that raise (a failed new op, a failed in-place update) between the clear event and the final backward
+CFG_Q4 = dict(ops2=("mul",), iops=(), set_idx=(), clears=("backward",), max_live=4, no_y=True, fails=True)
+CFGS = {"q1": CFG_Q1, "q2": CFG_Q, "q3": CFG_Q3, "q4": CFG_Q4, "t": CFG_T}
+BOUNDS = {"quick": [("q1", 5), ("q2", 4), ("q3", 5), ("q4", 5)], "thorough": [("q1", 6), ("q3", 6), ("q4", 6), ("t", 5)]}
 
 
 def enabled(m, cfg, out):
@@ -46,6 +48,9 @@ def enabled(m, cfg, out):
     if cfg.get("peek"):
         for t in live:
             sts.append(("peek", t))
+    if cfg.get("fails"):
+        for t in live:
+            sts += [("failop", t), ("failset", t)]
     if cfg.get("rawwrite"):
         sts.append(("rawwrite", "x"))
     for c in cfg.get("outc", ()):
@@ -118,15 +123,23 @@ def final_check(h, seed, L):
         return "prefix", None
     impl = ex.impl
     before = {n: (None if impl.t[n].grad is None else impl.t[n].grad.copy()) for n in impl.order}
-    try:
-        impl.t[L].backward()
-    except Exception as e:
-        eb = base.exc_brief(e)
-        del e
-        ex.close()
-        if eb[0] == "InvalidBackprop":
-            return "InvalidBackprop", None
-        return "exception", ("exception", L, "%s: %s" % eb)
+    retried = False
+    for attempt in (0, 1):
+        try:
+            impl.t[L].backward()
+            break
+        except Exception as e:
+            eb = base.exc_brief(e)
+            del e
+            if eb[0] != "InvalidBackprop":
+                ex.close()
+                return "exception", ("exception", L, "%s: %s" % eb)
+            if attempt == 1:
+                ex.close()
+                return "InvalidBackprop", None
+            # a caller that catches the error and calls backward() on the same tensor again must get the error again
+            # (or exact gradients): the failed attempt must not turn the second one into a silent no-op
+            retried = True
     m0, exp = csad.expected_grads(INIT, h, seed, terminal=lambda m: m.a[L].sum(), detach=ex.detach, raw_ok=ex.raw_ok)
     out = "grads"
     fail = None
@@ -135,7 +148,7 @@ def final_check(h, seed, L):
         e = exp[n]
         if np.any(e != 0):
             if g is None or not csad.close(g, e):
-                fail = ("grad_value", n, "L=%s: impl %s expected (forward as recorded) %s" % (L, None if g is None else explore.fmt(g), explore.fmt(e)),
+                fail = ("grad_value", n, "L=%s%s: impl %s expected (forward as recorded) %s" % (L, " (second backward() after an InvalidBackprop)" if retried else "", None if g is None else explore.fmt(g), explore.fmt(e)),
                         dict(got=None if g is None else g.tolist(), exp=e.tolist(), before=None if before[n] is None else before[n].tolist()))
                 break
         else:
@@ -283,6 +296,11 @@ def m_stale_consumer_after_clear(v):
     if (v.get("failure") or {}).get("kind") not in ("grad_spurious", "grad_value") or L is None:
         return False
     if not any(s[0] in ("backward", "clear") for s in h):
+        return False
+    first_clear = min(i for i, s in enumerate(h) if s[0] in ("backward", "clear"))
+    if not any(s[0] not in ("backward", "clear", "failop", "failset") for s in h[first_clear + 1:]):
+        # the finding needs a *successful* re-use of a cleared tensor after the clear event (that is what refills the consumer
+        # set); a minimal history in which only statements that raise touch it afterwards is a different defect
         return False
     extra = (v.get("failure") or {}).get("extra") or {}
     if extra.get("before") is not None and extra.get("got") is not None:
